@@ -64,6 +64,8 @@ def harness_hash():
         for dp, dn, fn in sorted(os.walk(root)):
             dn.sort()
             for f in sorted(fn):
+                if f in ("props.py", "checks.py", "manifest_gen.py", "front.py", "api.py"):
+                    continue        # post-processing only: no effect on the cached engine results
                 if f.endswith((".rs", ".toml", ".tla", ".cfg", ".py")):
                     with open(os.path.join(dp, f), "rb") as fh:
                         h.update(f.encode() + hashlib.sha256(fh.read()).digest())
